@@ -227,7 +227,9 @@ def euler_index(prog: Program) -> RuleResult:
     ok_node = len(rets) == 1 and isinstance(rets[0].value, ast.Subscript) and isinstance(rets[0].value.slice, ast.Constant) and rets[0].value.slice.value == 1
     ok_level = len(lrets) == 1 and isinstance(lrets[0].value, ast.Subscript) and isinstance(lrets[0].value.slice, ast.Constant) and lrets[0].value.slice.value == 0
     pairs = [t for st2 in tour.body for t in ast.walk(st2) if isinstance(t, ast.Tuple) and len(t.elts) == 2 and isinstance(t.ctx, ast.Load)]
-    ok_pairs = pairs and all(dotted(t.elts[0]) == "level" for t in pairs)
+    tour_params = func_params(tour)
+    lvl_param = tour_params[1] if len(tour_params) > 1 else "level"
+    ok_pairs = pairs and all(dotted(t.elts[0]) == lvl_param for t in pairs)
     if ok_node and ok_level and ok_pairs:
         res.ok(construct, "tour entries are (level, node); level() reads [0], the query returns [1]")
     else:
@@ -247,8 +249,8 @@ def euler_index(prog: Program) -> RuleResult:
     if len(rec) != 1:
         problems.append("no single recursive call per child")
     else:
-        lvl = kwarg(rec[0], "level", 1)
-        if lvl is None or norm.poly(lvl) != Poly.atom("level") + Poly.const(1):
+        lvl = kwarg(rec[0], lvl_param, 1)
+        if lvl is None or norm.poly(lvl) != Poly.atom(lvl_param) + Poly.const(1):
             problems.append(f"children are toured at level `{short(lvl)}`, not level + 1")
     if len(revisit) != 1 or body.index(revisit[0]) < max((body.index(s2) for s2 in body if any(c in list(ast.walk(s2)) for c in rec)), default=0):
         problems.append("the node is not appended again after each child's tour")
